@@ -23,12 +23,32 @@ pub fn any_char() -> impl Strategy<Value = char> {
     ]
 }
 
+/// Long text built around block sizes: `mult` x `block` bytes (+-3) of ASCII filler in which a few
+/// escape-relevant or multi-byte characters sit within four bytes of a multiple of 64 (so that
+/// characters straddle the edges of 64-byte .. 64-KiB blocks and fast paths for long input are taken).
+pub fn long_text() -> BoxedStrategy<String> {
+    let block = prop_oneof![8 => Just(64usize), 3 => Just(128usize), 2 => Just(256usize), 1 => Just(1024usize), 1 => Just(4096usize), 1 => Just(8192usize), 1 => Just(16384usize), 1 => Just(65536usize)];
+    (block, 1usize..=3, -3i64..=3, proptest::collection::vec((any::<u8>(), -4i64..=3, special_char()), 1..6))
+        .prop_map(|(block, mult, jitter, specials)| {
+            let len = ((block * mult) as i64 + jitter).max(1) as usize;
+            let mut bytes: Vec<Option<char>> = vec![None; len];
+            let edges = len / 64 + 1;
+            for (bi, off, ch) in specials {
+                let pos = ((bi as usize % edges) as i64 * 64 + off).clamp(0, len as i64 - 1) as usize;
+                bytes[pos] = Some(ch);
+            }
+            bytes.into_iter().map(|c| c.unwrap_or('a')).collect::<String>()
+        })
+        .boxed()
+}
+
 /// Unicode text, length 0..=max chars, with a small weight for long strings.
 pub fn text(max: usize) -> BoxedStrategy<String> {
     prop_oneof![
-        1 => Just(String::new()),
-        10 => proptest::collection::vec(any_char(), 0..=max).prop_map(|v| v.into_iter().collect::<String>()),
-        3 => proptest::collection::vec(special_char(), 1..=4).prop_map(|v| v.into_iter().collect::<String>()),
+        2 => Just(String::new()),
+        20 => proptest::collection::vec(any_char(), 0..=max).prop_map(|v| v.into_iter().collect::<String>()),
+        6 => proptest::collection::vec(special_char(), 1..=4).prop_map(|v| v.into_iter().collect::<String>()),
+        1 => long_text(),
     ]
     .boxed()
 }
